@@ -455,6 +455,52 @@ func (ck *Checker) disciplineObligations() []*Obligation {
 			"the window representation (input, posShift, inputs, lpUpd) is accessed only by next/current/emit/emitError (and the constructor), the cursor (start, pos, width) only by those and backup/unbackup/ignore; every state function reads the source only through next(), whose contract is independent of chunk boundaries", bad))
 	}
 
+	// ---- C20: layout tokens compile to nothing --------------------------------------------------------
+	{
+		var bad []string
+		emitClasses := []string{"H_Prog_code", "H_Prog_constants", "H_Prog_positions", "E_uint8", "E_value"}
+		for _, n := range []string{"(*parser).consume", "(*parser).match", "(*parser).matchEnd", "(*parser).advance", "(*parser).check", "(*parser).checkEnd"} {
+			f := p.Lookup(n)
+			if f == nil {
+				bad = append(bad, "function not found: "+n)
+				continue
+			}
+			ws := e.FuncWrites(f)
+			for _, c := range emitClasses {
+				if ws.Classes[c] {
+					bad = append(bad, n+" may write "+c)
+				}
+			}
+		}
+		if f := p.Lookup("parens"); f != nil {
+			for _, b := range f.Blocks {
+				for _, ins := range b.Instrs {
+					if ci, ok := ins.(ssa.CallInstruction); ok {
+						if sc := ci.Common().StaticCallee(); sc != nil {
+							switch p.FuncName(sc) {
+							case "expr", "(*parser).consume":
+							default:
+								bad = append(bad, "parens calls "+p.FuncName(sc))
+							}
+						} else if _, isB := ci.Common().Value.(*ssa.Builtin); !isB {
+							bad = append(bad, "parens makes a dynamic call at "+p.Pos(instrPos(ins)))
+						}
+					}
+				}
+			}
+			for _, a := range e.accessesOf(f) {
+				if a.write {
+					bad = append(bad, "parens writes "+a.class)
+				}
+			}
+		} else {
+			bad = append(bad, "function not found: parens")
+		}
+		sort.Strings(bad)
+		out = append(out, effectsObl("discipline/layout-tokens-compile-to-nothing", []string{"C20"}, len(bad) == 0, "parse.go",
+			"consuming a token (consume, match, matchEnd, advance, check, checkEnd - hence the optional ';' and the closing ')') writes no code, constant or position, and parens does nothing but parse the inner expression and consume ')': redundant parentheses and optional semicolons add no instructions", bad))
+	}
+
 	// ---- C16: determinism discipline ------------------------------------------------------------------
 	{
 		api := []*ssa.Function{}
